@@ -29,6 +29,8 @@ func init() {
 				Edits: []Edit{{File: "driver/network/acquirepriv.go", Old: "if util.StringContainsAny(currentPrompt, priv.NotContains) {", New: "if util.StringSliceContains(priv.NotContains, currentPrompt) {"}}},
 			{ID: "C04-op-options-break", Desc: "network.NewOperation stops at the first option that is not its own", Rule: "C04/op-options-applied",
 				Edits: []Edit{{File: "driver/network/operation.go", Old: "\t\t\tif !errors.Is(err, util.ErrIgnoredOption) {\n\t\t\t\treturn nil, err\n\t\t\t}", New: "\t\t\tif !errors.Is(err, util.ErrIgnoredOption) {\n\t\t\t\treturn nil, err\n\t\t\t}\n\n\t\t\tbreak"}}},
+			{ID: "C04-graph-needs-escalate", Desc: "levels without an escalate command are not linked into the graph", Rule: "C04/graph-links",
+				Edits: []Edit{{File: "driver/network/privilege.go", Old: "\t\tif privLevel.PreviousPriv != \"\" {", New: "\t\tif privLevel.PreviousPriv != \"\" && privLevel.Escalate != \"\" {"}}},
 			{ID: "C04-fromfile-skips-acquire", Desc: "SendCommandsFromFile skips the implicit acquire", Rule: "C04/acquire-before-send",
 				Edits: []Edit{{File: "driver/network/sendcommands.go", Old: "\tf string,\n\topts ...util.Option,\n) (*response.MultiResponse, error) {\n\tif d.CurrentPriv != d.DefaultDesiredPriv {", New: "\tf string,\n\topts ...util.Option,\n) (*response.MultiResponse, error) {\n\tif d.CurrentPriv != d.DefaultDesiredPriv && f == \"\" {"}}},
 			{ID: "C04-unknown-only-empty", Desc: "unknown-target refusal only for the empty name", Rule: "C04/refuse-unknown-first",
@@ -59,12 +61,14 @@ func runC04(c *Ctx, r *Report) {
 	r.Rule("C04/refuse-unknown-first", "an unknown target is refused with ErrPrivilegeError before anything that can reach the transport", 2)
 	r.Rule("C04/level-detection", "a level is a candidate exactly when its pattern matches the prompt and no not-contains string occurs in it (substring); the two list helpers are exists-loops", 3)
 	r.Rule("C04/op-options-applied", "the per-operation option constructors (network, generic, channel) apply the full list in order and leave the loop only on a non-ignored error", 3)
+	r.Rule("C04/graph-links", "buildPrivGraph links every level with its previous level in both directions, unconditionally", 2)
 	r.Rule("C04/step-table", "processAcquirePriv: current-level selection, no-action / transition bookkeeping, next hop and direction on every path", 9)
 	r.Rule("C04/step-wiring", "escalate/deescalate transmit their own level's command; AcquirePriv dispatches each action to its step and returns step errors", 6)
 	r.Rule("C04/bounded", "the AcquirePriv loop is bounded by a counter compared with the number of levels and re-reads the prompt each iteration", 2)
 	r.Rule("C04/acquire-before-send", "commands run after acquiring the default desired level (when the cached level differs); configs / interactive after acquiring the requested, else configuration / default, level", 8)
 
 	checkLevelDetection(c, r)
+	checkGraphLinks(c, r, "C04/graph-links")
 	for _, pk := range []string{"driver/network", "driver/generic", "channel"} {
 		checkOperationApplyLoop(c, r, "C04/op-options-applied", pk)
 	}
